@@ -407,6 +407,27 @@ fn check_group<G: LibG>(bank: &mut Bank<G>, idx: usize, prop: &str, full: bool) 
             return Err((inv(prop, 4), format!("{} reg{}: normalize() did not give z = 1 / changed the value", G::NAME, idx)));
         }
     } else {
+        // identities: the formats are not defined for them, but whatever the encoders do
+        // (panic, or return something) must be the same for every representation of the
+        // identity as for the freshly computed one ("observationally identical")
+        for fmt in FMTS {
+            let a = std::panic::catch_unwind(std::panic::AssertUnwindSafe(|| v.enc(fmt))).map_err(|_| ());
+            let b = std::panic::catch_unwind(std::panic::AssertUnwindSafe(|| f.enc(fmt))).map_err(|_| ());
+            if a != b {
+                return Err((
+                    inv(prop, 4),
+                    format!(
+                        "{} reg{} (repr {}): the {} encoder behaves differently on this identity ({}) than on the freshly computed identity ({})",
+                        G::NAME,
+                        idx,
+                        v.repr_class(),
+                        fmt.name(),
+                        match &a { Ok(x) => format!("returns {}", hex(x)), Err(_) => "panics".to_string() },
+                        match &b { Ok(x) => format!("returns {}", hex(x)), Err(_) => "panics".to_string() }
+                    ),
+                ));
+            }
+        }
         if v.affine_rt().is_some() {
             return Err((inv(prop, 4), format!("{} reg{}: affine conversion of the identity returned Some", G::NAME, idx)));
         }
